@@ -23,18 +23,20 @@ def lastDrained (h : List Cycle) : Bool :=
   | none => false
 
 /-- a call returned an error (anything but nil / io.EOF) -/
-def reported (outs : List Out) : Bool := (outs.find? (fun o => o.res != .ok && o.res != .eof)).isSome
+def reported (outs : List Out) : Bool :=
+  (outs.find? (fun o => o.res != .ok && o.res != .eof && o.res != .rejected)).isSome
 
 /-- The executable statement "an I/O failure is never hidden" on the outputs of a program that is
     the well-formed history `h`: the first call that did not succeed returned an error (it did not
     panic or hang), or no call failed and the outputs satisfy the statement of C11.  `none` = the
     statement holds.  Proved sound in `Properties/C13_history.lean` (`surfaceStatement_sound`). -/
 def surfaceStatement (ac : Bool) (h : List Cycle) (ops : List Op) (outs : List Out) : Option String :=
-  let firstBad := outs.find? (fun o => o.res != .ok && o.res != .eof)
+  -- (the type-mismatch error of a rejected Push is not the report of an I/O failure)
+  let firstBad := outs.find? (fun o => o.res != .ok && o.res != .eof && o.res != .rejected)
   if firstBad.any (fun o => o.res == .panic || o.res == .hang) then
     some "a-call-panicked-before-any-error-was-returned"
   else if firstBad.isSome then none
-  else (Biogo.Drive.C11.historyStatement ac h ops outs).map (fun why => s!"success-reported-throughout-but:{why}")
+  else (Biogo.Drive.C11.programStatement ac h ops outs).map (fun why => s!"success-reported-throughout-but:{why}")
 
 def handleTokens (inp : List String) (obs : String) : Verdict :=
   match inp with
@@ -64,7 +66,7 @@ def handleTokens (inp : List String) (obs : String) : Verdict :=
                    match w.flt with | some (p, _) => "fault-" ++ (reprStr p).replace "Biogo.MorassConc.Pt." "" | none => "no-fault"]
                   ++ (if fired then ["fault-fired", "nt"] else [])
                   ++ (if w.aclean then ["autoclean"] else []) ++ (if w.ac then ["autoclear"] else [])
-      match Biogo.Morass.historyOf w.ac w.ops with
+      match Biogo.Morass.historyOf w.ac (Biogo.Morass.dropRejects w.ops) with
       | none => if m == impl then ok (tags ++ ["illformed"]) else diff m (tags ++ ["illformed"])
       | some h =>
         let tags := tags ++ (if w.flt.isNone && lastDrained h && (w.ac || w.aclean) then ["nt", "residue"] else [])
